@@ -118,6 +118,10 @@ def synth_texts(rng, n):
         # a byte order mark / zero-width character in front of several lines: positions on LATER lines too
         body = "".join(pool[:6])
         out += [(lang, "\ufeff" + body), (lang, "\ufeff\n" + body), (lang, "\u200b" + body), (lang, "\ufeff" + body.rstrip("\n"))]
+        # far out: columns and lines beyond 2^16 (a minified bundle on one line, a data table of many lines)
+        # (the many lines sit inside one token: Pygments itself is quadratic in the number of consecutive blank lines for C, C++ and Java)
+        tall = ('"""' + "\n" * 70000 + '"""\nx = 1\n  y = 2') if lang == "Python" else ("/*" + "\n" * 70000 + "*/ x = 1\n  y = 2")
+        out += [(lang, " " * 70000 + "x = 1\ny = 2\n"), (lang, "s = \"" + "a" * 66000 + "\" + t\nz = 3\n"), (lang, tall)]
         for _ in range(n):
             k = rng.randint(1, 12)
             t = "".join(rng.choice(pool) for _ in range(k))
@@ -190,7 +194,7 @@ def run(tier: str) -> int:
     for k, clause in sorted(rejected.items()):
         lang, text, keep, _ = jobs[k]
         rep.fail({"clause": clause, "language": lang, "keep": keep, "text_sha": __import__("hashlib").sha1(text.encode()).hexdigest()[:10], "text_head": text[:60]},
-                 {"kind": "real", "lang": lang, "keep": keep, "text": text if len(text) < 4000 else text[:4000], "observed_counts": rres[k][1] if rres[k][0] != "ok" else {x: rres[k][1][x] for x in ("returned", "expected", "raw_tokens")}})
+                 {"kind": "real", "lang": lang, "keep": keep, "text": text if len(text) < 4000 else text[:4000], "observed_counts": list(rres[k]) if rres[k][0] != "ok" else {x: rres[k][1][x] for x in ("returned", "expected", "raw_tokens")}})
     log(f"[C16] A accepted {len(jobs) - len(rejected)}/{len(jobs)} real lexer runs ({ntok} returned tokens judged), {t.s()}s")
 
     rc = rep.finish()
